@@ -42,10 +42,15 @@ REAL_VS_STUB = {
 }
 TIERS = {
     "quick": {"runs": 3840, "budget_s": 60, "chunk": 24, "det_pairs": 36, "fresh": 3},
-    "thorough": {"runs": 190000, "budget_s": 900, "chunk": 48, "det_pairs": 384, "fresh": 16},
+    "thorough": {"runs": 190000, "budget_s": 900, "chunk_timeout": 900, "chunk": 48, "det_pairs": 384, "fresh": 16},
 }
 
 WRITE_KINDS = ["enospc", "eio", "enospc_torn"]
+
+
+def isolate(case: dict) -> bool:
+    """Histories with injected I/O faults run in a forked child (see runner._run_case_forked)."""
+    return bool(case.get("enumerate") or case.get("fault"))
 
 
 # --------------------------------------------------------------------------- generation
